@@ -22,10 +22,16 @@ MANIFEST = {
 }
 
 
+# the 65c816's 8-bit relative branches (WDC data sheet): the expected opcode byte never comes from the code under test
+ISA_BRANCH = {"bpl": 0x10, "bmi": 0x30, "bvc": 0x50, "bvs": 0x70, "bcc": 0x90, "bcs": 0xB0, "bne": 0xD0, "beq": 0xF0,
+              "bra": 0x80}
+
+
 def _branches():
+    """Mnemonics the live table encodes as relative branches, each with its opcode byte from the ISA."""
     from a816.cpu import cpu_65c816 as c
-    return [(mn, e.opcode) for mn, modes in c.snes_opcode_table.items() for e in modes.values()
-            if type(e) is c.RelativeJumpOpcode]
+    live = [mn for mn, modes in c.snes_opcode_table.items() for e in modes.values() if type(e) is c.RelativeJumpOpcode]
+    return [(mn, ISA_BRANCH[mn]) for mn in live if mn in ISA_BRANCH] or [("bra", 0x80)]
 
 
 def cases(ctx):
@@ -95,6 +101,22 @@ def cases(ctx):
                     "src": f"*={org:#08x}\nzz_rom:\nnop\n@=0x7e0000\nbra zz_rom\n",
                     "spec": {"t": "branch", "high": rom == "high", "p": 0x7E0000, "t_addr": org, "op": 0x80, "skip": 1,
                              "reject": True}})
+    # the target written as a literal address (the way a patch branches into existing code), alone and in an expression
+    for rom in ("low", "high"):
+        bank = 0x01 if rom == "low" else 0x41
+        org = (bank << 16) | 0x9000
+        for mn, op in br:
+            for d, txt in ((0x10, "{t:#08x}"), (-0x20, "{t:#08x}"), (0x7F, "{t}"), (-0x80, "{t:#x}"), (0x80, "{t:#08x}"),
+                           (-0x81, "{t:#08x}"), (5, "{a:#08x} + {b}"), (0, "{t:#08x}")):
+                t = org + 2 + d
+                text = txt.format(t=t, a=t - 3, b=3)
+                out.append({"kind": "branch:literal-target", "rom": rom, "src": f"*={org:#08x}\n{mn} {text}\nnop\n",
+                            "spec": {"t": "branch", "high": rom == "high", "p": org, "t_addr": t, "op": op, "skip": 0,
+                                     "reject": False}})
+            out.append({"kind": "branch:literal-target-reloc-ram", "rom": rom,
+                        "src": f"*={org:#08x}\n@=0x7e2000\n{mn} 0x7e2010\n",
+                        "spec": {"t": "branch", "high": rom == "high", "p": 0x7E2000, "t_addr": 0x7E2010, "op": op, "skip": 0,
+                                 "reject": True}})
     # the run address is RAM because a *= (not a @=) put it there, the target is ROM within reach of the stale offset
     for rom in ("low", "high"):
         bank = 0x01 if rom == "low" else 0x41
